@@ -617,3 +617,58 @@ Proof.
     destruct (cn =? 0); [intros [= _ <-]; lia|].
     destruct (getbit b p) as [[|]|] eqn:Eg; try discriminate; intros [= _ <-]; apply getbit_ok_lt in Eg; lia.
 Qed.
+
+(* ================= C20: the decoders terminate (the fuel suffices) and fail only with ReadError ================= *)
+Lemma skip_zeros_no_fuel b : forall fuel pos, 0 <= pos -> (Z.to_nat (zlen b - pos) < fuel)%nat -> skip_zeros fuel b pos <> Err OutOfFuel.
+Proof.
+  induction fuel as [|f IH]; intros pos Hp Hf; [lia|].
+  cbn [skip_zeros]. destruct (getbit b pos) as [[|]|] eqn:Eg; try discriminate.
+  apply getbit_ok_lt in Eg; [|lia]. apply IH; lia.
+Qed.
+Lemma skip_zeros_err fuel b : forall pos e, skip_zeros fuel b pos = Err e -> e = ReadError \/ e = OutOfFuel.
+Proof.
+  induction fuel as [|f IH]; intros pos e H; [injection H as <-; auto|].
+  cbn [skip_zeros] in H. destruct (getbit b pos) as [[|]|]; try discriminate; [eapply IH; eauto|injection H as <-; auto].
+Qed.
+Lemma readuie_loop_no_fuel b : forall fuel pos c, 0 <= pos -> (Z.to_nat (zlen b - pos) < fuel)%nat -> readuie_loop fuel b pos c <> Err OutOfFuel.
+Proof.
+  induction fuel as [|f IH]; intros pos c Hp Hf; [lia|].
+  cbn [readuie_loop]. destruct (getbit b pos) as [[|]|] eqn:Eg; try discriminate.
+  destruct (getbit b (pos + 1)) eqn:Eg2; [|discriminate]. apply getbit_ok_lt in Eg; [|lia]. apply IH; lia.
+Qed.
+Lemma readuie_loop_err fuel b : forall pos c e, readuie_loop fuel b pos c = Err e -> e = ReadError \/ e = OutOfFuel.
+Proof.
+  induction fuel as [|f IH]; intros pos c e H; [injection H as <-; auto|].
+  cbn [readuie_loop] in H. destruct (getbit b pos) as [[|]|]; try discriminate; [|injection H as <-; auto].
+  destruct (getbit b (pos + 1)); [eapply IH; eauto|injection H as <-; auto].
+Qed.
+
+Lemma readue_err b pos e : 0 <= pos -> readue b pos = Err e -> e = ReadError.
+Proof.
+  intros Hp. unfold readue. destruct (skip_zeros (S (length b)) b pos) as [q|e0] eqn:Es.
+  - cbn [bind]. pose proof (skip_zeros_ge _ _ _ _ Es) as Hge. destruct (q - pos >? 0) eqn:E.
+    + destruct (q + (q - pos) + 1 >? zlen b) eqn:E2; [intros He; congruence|].
+      unfold getuint. pose proof (skip_zeros_lt _ _ _ _ Hp Es).
+      assert (Hl : zlen (sub b (q + 1) (q + 1 + (q - pos))) = q - pos).
+      { unfold sub, zlen in *. rewrite firstn_length, skipn_length. lia. }
+      rewrite Hl. destruct (q - pos =? 0) eqn:E3; [lia|].
+      destruct (sub b (q + 1) (q + 1 + (q - pos))) eqn:Esub; [cbn in Hl; lia|]. cbn. discriminate.
+    + assert (q = pos) by lia. subst q. rewrite Z.sub_diag. cbn. discriminate.
+  - cbn [bind]. intros He. assert (e0 = e) by congruence. subst e0. destruct (skip_zeros_err _ _ _ _ Es) as [Hr|Hr]; [exact Hr|]. subst e.
+    exfalso. eapply (skip_zeros_no_fuel b (S (length b)) pos Hp); [unfold zlen; lia|exact Es].
+Qed.
+
+Theorem decoders_fail_cleanly c b pos e : 0 <= pos -> g_read c b pos = Err e -> e = ReadError.
+Proof.
+  intros Hp. destruct c; cbn [g_read].
+  - now apply readue_err.
+  - unfold readse. destruct (readue b pos) as [[cn p]|e0] eqn:E; cbn [bind].
+    + destruct (cn mod 2 =? 0); discriminate.
+    + intros He. assert (e0 = e) by congruence. subst e0. eapply readue_err; eauto.
+  - unfold readuie. intros H. destruct (readuie_loop_err _ _ _ _ _ H) as [Hr|Hr]; [exact Hr|]. subst e.
+    exfalso. eapply (readuie_loop_no_fuel b (S (length b)) pos 1 Hp); [unfold zlen; lia|exact H].
+  - unfold readsie, readuie. destruct (readuie_loop (S (length b)) b pos 1) as [[cn p]|e0] eqn:E; cbn [bind].
+    + destruct (cn =? 0); [discriminate|]. destruct (getbit b p) as [[|]|]; try discriminate. intros He. congruence.
+    + intros He. assert (e0 = e) by congruence. subst e0. destruct (readuie_loop_err _ _ _ _ _ E) as [Hr|Hr]; [exact Hr|]. subst e.
+      exfalso. eapply (readuie_loop_no_fuel b (S (length b)) pos 1 Hp); [unfold zlen; lia|exact E].
+Qed.
